@@ -1,6 +1,7 @@
 package sim
 
 import (
+	"bufio"
 	"errors"
 	"fmt"
 	"io"
@@ -45,9 +46,12 @@ const (
 	// ProfPipe is an io.Reader that has a Seek method which always fails, like an *os.File that is a
 	// pipe, a socket or a terminal (ESPIPE): a non-seekable source that looks like a Seeker.
 	ProfPipe = "pipe"
+	// ProfBufio is a *bufio.Reader (small buffer) over a plain reader: a stream that brings its own
+	// ReadByte, Discard, Peek, UnreadByte and WriteTo, which is what callers wrap sockets and pipes in.
+	ProfBufio = "bufio"
 )
 
-var AllProfiles = []string{ProfR, ProfRB, ProfRS, ProfRSB, ProfRSA, ProfRSAB, ProfA, ProfPipe}
+var AllProfiles = []string{ProfR, ProfRB, ProfRS, ProfRSB, ProfRSA, ProfRSAB, ProfA, ProfPipe, ProfBufio}
 
 var errIllegalSeek = errors.New("sim: seek: illegal seek")
 
@@ -234,6 +238,8 @@ func NewSource(data []byte, profile string, del Delivery) (any, *SrcCore) {
 		return SrcA{c}, c
 	case ProfPipe:
 		return SrcPipe{c}, c
+	case ProfBufio:
+		return bufio.NewReaderSize(SrcR{c}, 16), c
 	}
 	panic("sim: unknown profile " + profile)
 }
@@ -291,6 +297,9 @@ func (s *Sink) Write(p []byte) (int, error) {
 				s.rec(p[:n])
 			}
 			return n, ErrInjected
+		case FaultLate:
+			s.rec(p)
+			return len(p), ErrInjected
 		}
 	}
 	s.rec(p)
